@@ -5,6 +5,7 @@ import (
 	"hash/crc32"
 	"image"
 	"image/color"
+	"image/draw"
 	"reflect"
 
 	"github.com/boombuler/barcode"
@@ -29,7 +30,42 @@ func modules1D(bc barcode.Barcode) ([]bool, error) {
 			return nil, fmt.Errorf("pixel %d is %v, neither black nor white", x, bc.At(x, 0))
 		}
 	}
+	if err := accessorsAgree(bc); err != nil {
+		return nil, err
+	}
 	return out, nil
+}
+
+// accessorsAgree: every way the standard library may read the image must show the pixels At() shows: the optional
+// image.RGBA64Image fast path (RGBA64At), and image/draw, which prefers such fast paths when a source offers them.
+func accessorsAgree(bc image.Image) error {
+	b := bc.Bounds()
+	if b.Dx() <= 0 || b.Dy() <= 0 || b.Dx()*b.Dy() > 4000000 {
+		return nil
+	}
+	if fast, ok := bc.(interface {
+		RGBA64At(x, y int) color.RGBA64
+	}); ok {
+		for y := b.Min.Y; y < b.Max.Y; y++ {
+			for x := b.Min.X; x < b.Max.X; x++ {
+				r, g, bl, a := bc.At(x, y).RGBA()
+				if got := fast.RGBA64At(x, y); uint32(got.R) != r || uint32(got.G) != g || uint32(got.B) != bl || uint32(got.A) != a {
+					return fmt.Errorf("RGBA64At(%d,%d) = %v, At(%d,%d) = %v: the image's pixel accessors disagree", x, y, got, x, y, bc.At(x, y))
+				}
+			}
+		}
+	}
+	dst := image.NewRGBA64(image.Rect(0, 0, b.Dx(), b.Dy()))
+	draw.Draw(dst, dst.Bounds(), bc, b.Min, draw.Src)
+	for y := 0; y < b.Dy(); y++ {
+		for x := 0; x < b.Dx(); x++ {
+			r, g, bl, a := bc.At(b.Min.X+x, b.Min.Y+y).RGBA()
+			if got := dst.RGBA64At(x, y); uint32(got.R) != r || uint32(got.G) != g || uint32(got.B) != bl || uint32(got.A) != a {
+				return fmt.Errorf("image/draw renders pixel (%d,%d) as %v, At() says %v: the image's pixel accessors disagree", x, y, got, bc.At(b.Min.X+x, b.Min.Y+y))
+			}
+		}
+	}
+	return nil
 }
 
 // matrix2D reads a plain 2D barcode into rows of modules ([y][x]).
@@ -51,6 +87,9 @@ func matrix2D(bc barcode.Barcode) ([][]bool, error) {
 			}
 		}
 		out[y] = row
+	}
+	if err := accessorsAgree(bc); err != nil {
+		return nil, err
 	}
 	return out, nil
 }
@@ -181,4 +220,37 @@ func latin1Text(t *rapid.T, maxRunes int) string {
 	}
 	r[rapid.IntRange(0, n-1).Draw(t, "l1pos")] = rune(rapid.SampledFrom([]int{0xE9, 0xC3, 0xA9, 0xA0, 0xB0, 0xA3, 0xFC, 0xFF, 0xC2}).Draw(t, "l1one"))
 	return string(r)
+}
+
+// colourVariant: one accepted case in four is encoded once more through the WithColor entry point of the same encoder
+// with a non-default scheme; it must be accepted and draw the same module pattern in the scheme's two colours (an
+// entry-point variant that shares less code with the plain one than it seems: other flags, other length, other tail).
+func colourVariant(t TB, prop, check string, c any, spec EncSpec, plain [][]bool) {
+	h := H(spec.Fam, spec.Content, spec.A, spec.B)
+	if h%4 != 0 {
+		return
+	}
+	if (h>>2)%5 == 0 {
+		spec.Scheme = &SchemeSpec{Model: "cmyk", FG: ColorSpec{Model: "cmyk", V: [4]uint16{10, 200, 30, 40}}, BG: ColorSpec{Model: "cmyk", V: [4]uint16{0, 0, 90, 5}}}
+	} else {
+		spec.Scheme = &SchemeSpec{Predefined: 1 + int(h>>2)%4}
+	}
+	bc, err, pv := encodeSpec(spec)
+	if pv != nil {
+		failf(t, prop, check, c, "the WithColor entry point of the same call: %v", pv)
+	}
+	if err != nil || nilBarcode(bc) {
+		failf(t, prop, check, c, "the WithColor entry point rejects what the plain entry point accepts: %v", err)
+	}
+	var pat [][]bool
+	var perr error
+	if pv := try(func() { pat, perr = pattern(bc, spec.Scheme.Scheme()) }); pv != nil {
+		failf(t, prop, check, c, "the WithColor entry point of the same call: reading pixels: %v", pv)
+	}
+	if perr != nil {
+		failf(t, prop, check, c, "the WithColor entry point of the same call: %v", perr)
+	}
+	if !samePattern(pat, plain) {
+		failf(t, prop, check, c, "the WithColor entry point of the same call draws a %dx%d module pattern that differs from the plain entry point's %dx%d pattern", len(pat[0]), len(pat), len(plain[0]), len(plain))
+	}
 }
